@@ -87,7 +87,11 @@ fn run_history(c: &CacheCase, csv_dir: Option<&std::path::Path>, obs: &mut O) ->
         for (li, d) in run.lookups.iter().enumerate() {
             // what does the persisted cache hold for that year right now?
             let persisted: Option<Vec<DailyRate>> = match csv_dir { Some(dir) => CsvRatesCache::new(dir.to_path_buf(), WriteHandle::empty_write_handle()).get_usd_cad_rates(d.year() as u32).ok().flatten(), None => shared.borrow().get(&(d.year() as u32)).cloned() };
-            let cache_has_date = persisted.as_ref().map(|v| v.iter().any(|r| r.date == *d)).unwrap_or(false);
+            // which dates the persisted year covers is read off the file itself (date,rate lines), not through the reader under test
+            let cache_has_date = match csv_dir {
+                Some(dir) => std::fs::read_to_string(dir.join(format!("rates-{}.csv", d.year()))).map(|t| t.lines().any(|l| l.split(',').next().map(|x| x.trim() == d.to_string()).unwrap_or(false))).unwrap_or(false),
+                None => persisted.as_ref().map(|v| v.iter().any(|r| r.date == *d)).unwrap_or(false),
+            };
             let before = calls.borrow().get(&(d.year() as u32)).copied().unwrap_or(0);
             let got = match guard(|| loader.blocking_get_effective_usd_cad_rate(*d)) { Ok(g) => g, Err(p) => return Verdict::Fail(format!("[{kind}] panic in run {ri} look-up {d}: {}", p.sig())) };
             // the same look-up without any cache
